@@ -24,6 +24,7 @@ structure Prims (F : Type) where
   sqrt : F → Option F                        -- Sqrt (`none`: returned nil)
   lex : F → Bool                             -- LexicographicallyLargest
   bCurveCoeff : F
+  bTwistCurveCoeff : F                       -- b of the twist (G2 text of bw6-633 / bw6-761)
   isInSubGroup : F → F → Bool                -- (*G1Affine).IsInSubGroup of the point (X, Y)
 
 /-- `s[i:j]` (bounds inside `len`: checked statically for arrays, guarded for slices) -/
